@@ -326,7 +326,13 @@ class Unit:
                 mode = 'external'
             if key in self.cfg.get('drop', ()):
                 mode = 'drop'
-        meta = dict(key=key, file=repo_rel, lines=[it.line, it.end_line], sha256_source=sha(it.text), mode=mode,
+            if mode == 'assumed' and key not in self.cfg.get('no_inline', ()) and self.transparent_body(f):
+                mode = 'transparent'
+        tybase = ''
+        if im is not None:
+            tybase = re.sub(r'<.*$', '', im.ty.strip().lstrip('&').strip()).split('::')[-1] + '::'
+        vname = '::'.join([x for x in [self.cfg.get('crate_name', 'unit'), modpath.replace('::', '::')] if x]) + '::' + tybase + f.name
+        meta = dict(key=key, verus_name=vname, file=repo_rel, lines=[it.line, it.end_line], sha256_source=sha(it.text), mode=mode,
                     serves=(c.serves if c else []), rules=[], contract_file=(os.path.relpath(c.file, self.cfg['verif_root']) if c else None))
         self.functions.append(meta)
         if mode == 'drop':
@@ -360,6 +366,16 @@ class Unit:
         if mode == 'assumed':
             attrs.append('#[verifier::external_body]')
             new_body = body
+        elif mode == 'transparent':
+            # E12: a body that is one constructor/field expression is its own specification (inlining)
+            new_body = body
+            contract_txt = '\n    ensures /*@CL %s|ensures|transparent|%d*/ (%s == (%s)),' % (key, body.strip().count('\n'), retname, body.strip()[1:-1].strip())
+            self.rule('E12.transparent_body')
+            meta['rules'].append('E12')
+            if im is not None and im.trait and re.match(r'^From<', im.trait) and f.name == 'from':
+                src_ty = im.trait[5:-1]
+                extra = ('impl%s FromSpecImpl<%s> for %s%s { open spec fn obeys_from_spec() -> bool { true } open spec fn from_spec(%s) -> Self { %s } }'
+                         % (im.generics, src_ty, im.ty, (' ' + im.where) if im.where else '', f.params.strip().rstrip(','), body.strip()[1:-1].strip()))
         elif mode == 'verified':
             new_body = self.transform_body(body, c, key, meta, f)
         else:
@@ -371,6 +387,21 @@ class Unit:
         meta['body_unchanged'] = (new_body == body)
         return out, '', extra
 
+    def transparent_body(self, f):
+        if not f.has_body or not f.ret:
+            return False
+        e = f.body.strip()[1:-1].strip()
+        if not e or not re.match(r'^[\w\s.&*():<>,{}]+$', e):
+            return False
+        if f.ret.startswith('&['):
+            return False
+        for m in re.finditer(r'(\w+)\s*\(', e):
+            if not (m.group(1)[0].isupper()):
+                return False
+        if re.search(r'\b(let|if|match|loop|while|for|return|as|mut)\b', e):
+            return False
+        return True
+
     def contract_text(self, c):
         parts = []
 
@@ -380,7 +411,7 @@ class Unit:
             parts.append('\n    %s' % kind)
             for cl in lst:
                 txt = cl.text.strip().rstrip(',')
-                parts.append('\n        /*@CL %s|%s|%s*/ (%s),' % (c.key, cl.kind, cl.name, txt))
+                parts.append('\n        /*@CL %s|%s|%s|%d*/ (%s),' % (c.key, cl.kind, cl.name, txt.count('\n'), txt))
         clauses('requires', c.requires)
         clauses('ensures', c.ensures)
         if c.decreases:
@@ -500,11 +531,11 @@ class Unit:
                 if L['invariant']:
                     spec += '\n    invariant'
                     for cl in L['invariant']:
-                        spec += '\n        /*@CL %s|loop%d_invariant|%s*/ (%s),' % (key, k, cl.name, cl.text.strip().rstrip(','))
+                        spec += '\n        /*@CL %s|loop%d_invariant|%s|%d*/ (%s),' % (key, k, cl.name, cl.text.strip().count('\n'), cl.text.strip().rstrip(','))
                 if L['ensures']:
                     spec += '\n    ensures'
                     for cl in L['ensures']:
-                        spec += '\n        /*@CL %s|loop%d_ensures|%s*/ (%s),' % (key, k, cl.name, cl.text.strip().rstrip(','))
+                        spec += '\n        /*@CL %s|loop%d_ensures|%s|%d*/ (%s),' % (key, k, cl.name, cl.text.strip().count('\n'), cl.text.strip().rstrip(','))
                 if L['decreases']:
                     spec += '\n    decreases %s,' % L['decreases'].strip().rstrip(',')
             entry = ('\n' + '\n'.join(L['body_entry'])) if L and L['body_entry'] else ''
@@ -526,8 +557,8 @@ class Unit:
                     itexpr = '(%s)%s' % (iterable, suffix) if not re.match(r'^[\w.]+$', iterable) else iterable + suffix
                 else:
                     itexpr = iterable
-                new = ('{ let mut %s = %s;%s\nloop%s\n{\n let %s = match %s.next() { None => break, Some(__v) => __v };%s%s%s}%s\n}'
-                       % (it, itexpr, ghost, spec, pat, it, entry, inner, exit_, after))
+                new = ('{ let mut %s = %s;%s\nloop%s\n{\n let ghost __rem%d = %s.remaining();\n let %s = match %s.next() { None => break, Some(__v) => __v };%s%s%s}%s\n}'
+                       % (it, itexpr, ghost, spec, k, it, pat, it, entry, inner, exit_, after))
                 self.rule('E5.for_desugared')
                 meta['rules'].append('E5:loop%d%s' % (k, (':' + suffix) if suffix else ''))
             elif w == 'loop':
@@ -596,11 +627,11 @@ class Unit:
             if Lf['invariant']:
                 spec += '\n    invariant'
                 for cl in Lf['invariant']:
-                    spec += '\n        /*@CL %s|fold_invariant|%s*/ (%s),' % (key, cl.name, cl.text.strip().rstrip(','))
+                    spec += '\n        /*@CL %s|fold_invariant|%s|%d*/ (%s),' % (key, cl.name, cl.text.strip().count('\n'), cl.text.strip().rstrip(','))
             if Lf['ensures']:
                 spec += '\n    ensures'
                 for cl in Lf['ensures']:
-                    spec += '\n        /*@CL %s|fold_ensures|%s*/ (%s),' % (key, cl.name, cl.text.strip().rstrip(','))
+                    spec += '\n        /*@CL %s|fold_ensures|%s|%d*/ (%s),' % (key, cl.name, cl.text.strip().count('\n'), cl.text.strip().rstrip(','))
             if Lf['decreases']:
                 spec += '\n    decreases %s,' % Lf['decreases'].strip().rstrip(',')
             ghost = ('\n' + '\n'.join(Lf['ghost'])) if Lf['ghost'] else ''
@@ -680,7 +711,7 @@ class Unit:
             gen2 = '<C: Ciphersuite' + ((', ' + gen[1:-1]) if gen else '') + '>'
             dkey = key
             mode = c.mode if c else cfg.get('default_mode', 'assumed')
-            meta = dict(key=dkey, file=repo_rel, lines=[sub.line, sub.end_line], sha256_source=sha(sub.text), mode=mode,
+            meta = dict(key=dkey, verus_name=cfg.get('crate_name', 'unit') + '::traits_defaults::default_' + f.name, file=repo_rel, lines=[sub.line, sub.end_line], sha256_source=sha(sub.text), mode=mode,
                         serves=(c.serves if c else []), rules=['E10'], contract_file=(os.path.relpath(c.file, cfg['verif_root']) if c else None))
             self.functions.append(meta)
             body = subst(f.body)
@@ -777,7 +808,7 @@ class Unit:
         clauses = []  # (line, key, kind, name)
         cur = None
         for i, ln in enumerate(text.split('\n'), 1):
-            for m in re.finditer(r'/\*@(FN|ENDFN|CL) ?([^*]*)\*/', ln):
+            for m in re.finditer(r'/\*@(FN|ENDFN|CL|HCL) ?([^*]*)\*/', ln):
                 tag, arg = m.group(1), m.group(2)
                 if tag == 'FN':
                     cur = [i, None, arg.strip()]
@@ -785,9 +816,9 @@ class Unit:
                     cur[1] = i
                     fns.append(tuple(cur))
                     cur = None
-                elif tag == 'CL':
-                    k, kind, name = arg.split('|')
-                    clauses.append((i, k.strip(), kind, name))
+                elif tag in ('CL', 'HCL'):
+                    k, kind, name, nl = arg.split('|')
+                    clauses.append((i, k.strip(), kind, name, int(nl)))
         return fns, clauses
 
 
